@@ -25,6 +25,11 @@ CHECKS = {
    technique="TLC check of the checksum-coverage arithmetic + exhaustive byte substitution on the real open paths, judged by TLC trace validation with the reference codec's sealed fact",
    text="TLC checks on HeaderCover that the bytes fed to the header checksum plus the stored digest field are exactly all header bytes for every integer width and digest size. Then for 12 sample files (all overall/chunk hash types, dictionary, uncompressed-source flag, optional elements, a detached header, headers whose stored checksum begins with 0x00) EVERY header position x all 255 other byte values is opened by the real library, both through zck_init_read and through the pinned path (type and stored checksum pinned, read_lead + read_header), plus insertions/deletions with the length field adjusted and the identifier toggle; Trace_Header accepts the recorded verdicts only if every accepted mutation leaves the header sealed according to the independent reference codec.",
    note="Trusted: TLC, Header.tla, hashlib, the reference parser. Assumes no second preimage. Exhaustive over positions and values of the sample files, not over all files."),
+ "C13": dict(
+   category="model_checking", design_ref="DESIGN.md section 6, C13",
+   technique="reference-writer header family opened and dumped by the real library and zck_read_header; TLC trace validation against the Header contract (Open/Dump)",
+   text="The reference writer emits the bounded family of headers: all overall/chunk hash types x flags x optional elements x 1..4 entries, detached headers, stored/uncompressed sizes at 2^7k, 2^31, 2^32, 2^63, 2^64-1, pairs whose running sum approaches or exceeds 2^63/2^64, count mismatches and empty indexes, over-long / non-canonical / overflowing / unterminated encodings in every integer field, out-of-range values of the int-typed fields, length fields pointing at and over the end, optional-element counts and sizes against the end. Each is opened by the real library; every getter and a chunk iteration are dumped, and zck_read_header -c is run on the accepted ones. TLC accepts the trace through Trace_Header only if an opened header is well-formed, sealed, supported and representable (Open) and every reported value - flags, types, lengths, digests, count, per-chunk number/digests/sizes/start - equals the reference parse as decimal strings (Dump); a negative return of a signed getter counts as an error indication.",
+   note="Trusted: TLC, Header.tla, the reference parser/writer (verif/ref.py), the text scraping of zck_read_header output. Bounded family, not all headers."),
 }
 
 def entry(pid, c):
